@@ -123,12 +123,44 @@ def kernel_tree(draw, d_in, batch, depth=2, names=None, allow_ad=True, psd_only=
     return r
 
 
+_SHARED_PRIORS = None  # dict while a model is built with prior *objects* shared between identical prior recipes
+
+
+class shared_priors:
+    """with shared_priors(True): builders reuse ONE Prior object for all slots whose prior recipe is identical (users do
+    pass the same prior instance to several modules; every registration must still contribute its own term)."""
+
+    def __init__(self, on=True):
+        self.on = on
+
+    def __enter__(self):
+        global _SHARED_PRIORS
+        self.prev = _SHARED_PRIORS
+        _SHARED_PRIORS = {} if self.on else None
+
+    def __exit__(self, *a):
+        global _SHARED_PRIORS
+        _SHARED_PRIORS = self.prev
+        return False
+
+
 def _prior_kwargs(r):
     if not r.get("priors"):
         return {}
+    import json
+
     from pbt.priors_ref import build_prior
 
-    return {f"{pn}_prior": build_prior(pr) for pn, pr in r["priors"].items()}
+    out = {}
+    for pn, pr in r["priors"].items():
+        if _SHARED_PRIORS is None:
+            out[f"{pn}_prior"] = build_prior(pr)
+        else:
+            key = json.dumps(pr, sort_keys=True)
+            if key not in _SHARED_PRIORS:
+                _SHARED_PRIORS[key] = build_prior(pr)
+            out[f"{pn}_prior"] = _SHARED_PRIORS[key]
+    return out
 
 
 def _t(v):
